@@ -7,7 +7,7 @@ From Coq Require Import String.
 From Coq Require Import List NArith Bool.
 From Coq.Strings Require Import Byte.
 From Model Require Import Bytes Frame Response Conn Compression.
-From Proofs Require Import CompressionFacts NegotiationFacts.
+From Proofs Require Import CompressionFacts NegotiationFacts NegotiationTie.
 Import ListNotations.
 
 (* for every message history with per-message compress flags, both no_context_takeover settings, and every way of
@@ -103,3 +103,18 @@ Theorem C06_configuration_domain : forall swb cwb (snct cnct : bool),
   In ((match swb with Some n => [PSwb n] | None => [] end) ++ (match cwb with Some n => [PCwb n] | None => [] end) ++
       (if snct then [PSnct] else []) ++ (if cnct then [PCnct] else [])) all_param_sets.
 Proof. exact all_param_sets_spec. Qed.
+
+(* ... and the RUNNING code: the table obtained by executing WebSocket.process_extensions -> parse_extension ->
+   Deflate.from_options of /repo on every rendering above (regenerated on every run, coq/gen/GenNegotiation.v) holds, for
+   each configuration of the domain, in every parameter order and in the quoted / spaced spellings, exactly that
+   configuration; the same table agrees with the model on window sizes that must be refused (NegotiationTie.v) *)
+Theorem C06_running_code_reads_every_configuration : forall quoted spaced ps, In (quoted, spaced, ps) all_renderings ->
+  exists s, In (s, Some (Some (NegotiationTie.tuple_of (cfg_of ps)))) Gen.GenNegotiation.impl_negotiation /\
+            str s = render_ext quoted spaced ps.
+Proof. exact NegotiationTie.impl_reads_every_configuration. Qed.
+Print Assumptions C06_running_code_reads_every_configuration.
+
+Theorem C06_negotiation_table_is_model :
+  forallb (fun row => NegotiationTie.reading_eqb (NegotiationTie.model_reading (fst row)) (snd row))
+          Gen.GenNegotiation.impl_negotiation = true.
+Proof. exact NegotiationTie.table_agrees. Qed.
